@@ -303,9 +303,15 @@ class Ctx:
         return SStr(self.fresh(PStr, base))
 
     # -- solver plumbing
-    def _solver(self, light=False):
+    def _solver(self, light=False, feas=False):
         s = z3.Solver()
         s.set("timeout", 200 if light else self.timeout_ms)
+        if feas:
+            # feasibility only needs refutations: without model-based instantiation z3 answers
+            # `unknown` at once where it would otherwise search for a model of the quantified axioms;
+            # unknown counts as feasible (over-approximation: vacuous obligations, never a verdict)
+            s.set("smt.mbqi", False)
+            s.set("timeout", 2000)
         s.set("random_seed", self.seed)
         for e in (self.theory.light_axioms if light else self.theory.exprs()):
             s.add(e)
@@ -325,7 +331,7 @@ class Ctx:
         if r == z3.unsat:
             res = False
         else:
-            s = self._solver()
+            s = self._solver(feas=True)
             s.add(*self.pc)
             s.add(extra)
             r = s.check()
@@ -452,13 +458,19 @@ def to_smt2(theory, ob, negate_goal=True, with_known=None):
     return s.to_smt2()
 
 
-def explore(theory, run, stats=None, timeout_ms=10000, seed=0, open_findings=(), max_paths=20000):
-    """Run ``run(ctx)`` over every feasible path; returns (paths, obligations)."""
+def explore(theory, run, stats=None, timeout_ms=10000, seed=0, open_findings=(), max_paths=20000,
+            start=None, split_at=None):
+    """Run ``run(ctx)`` over every feasible path extending ``start``; returns (paths, obligations, leftover).
+
+    With ``split_at`` the exploration stops after that many paths; the unexplored prefixes are
+    returned as ``leftover`` and handed to other workers by the caller."""
     stats = stats or Stats()
-    queue = [[]]
+    queue = [list(start or [])]
     all_obs = []
     finished = []
     while queue:
+        if split_at is not None and stats.paths >= split_at:
+            break
         trace = queue.pop()
         ctx = Ctx(theory, trace, stats, timeout_ms=timeout_ms, seed=seed, open_findings=open_findings)
         try:
@@ -471,4 +483,4 @@ def explore(theory, run, stats=None, timeout_ms=10000, seed=0, open_findings=(),
         queue.extend(ctx.pending)
         all_obs.extend(ctx.obligations)
         finished.append((tuple(ctx.trace[:ctx.pos]), outcome, ctx))
-    return finished, all_obs
+    return finished, all_obs, queue
